@@ -261,6 +261,12 @@ func (P *Prog) predicateShape(fn *ssa.Function) predShape {
 			ret := "?"
 			if len(t.Results) == 1 {
 				ret = sc.sym(t.Results[0], 0)
+			} else if len(t.Results) > 1 {
+				var parts []string
+				for _, rv := range t.Results {
+					parts = append(parts, sc.sym(rv, 0))
+				}
+				ret = "(" + strings.Join(parts, ", ") + ")"
 			}
 			var cp []string
 			exhausted := false
